@@ -24,8 +24,11 @@ class Unsupported(Exception):
 
 
 class RefSim:
-    def __init__(self, spec):
+    def __init__(self, spec, initial_only=False):
+        """initial_only=True: only initial_state / eval_pars at index 0 / flush are used (derivative parameters then simply take
+        their databook value, several population types are tolerated as long as they are not involved)"""
         self.spec = spec
+        self.initial_only = initial_only
         s = spec["settings"]
         self.start, self.dt = float(s["start"]), float(s["dt"])
         r = (s["end"] - s["start"]) / s["dt"]
@@ -37,7 +40,7 @@ class RefSim:
         self.pars = {p["name"]: p for p in spec["pars"]}
         self.characs = {x["name"]: x for x in spec.get("characs", [])}
         self.data = spec["data"]
-        if any(p.get("deriv") for p in spec["pars"]):
+        if any(p.get("deriv") for p in spec["pars"]) and not initial_only:
             raise Unsupported("derivative parameters")
         if len(spec.get("pop_types") or []) > 1:
             raise Unsupported("several population types")
@@ -208,6 +211,8 @@ class RefSim:
                         den += W * z
                     v = num if fname.endswith("SUM") else (num / den if den != 0 else num)
                     v *= f
+                elif fn and p.get("deriv"):
+                    v = datainterp.series_value(self.data["q"][name][pop], t) * f  # initial value of a derivative parameter
                 elif fn:
                     env = {"t": t, "dt": self.dt}
                     for nm in expr.names(fn):
